@@ -71,6 +71,7 @@ def run(ctx):
         ('G-exec-over', 350, 6000, dict(overcommit=True, p_bad=0.05)),
         ('G-exec-burst', 250, 4000, dict(burst=True)),
         ('G-exec-waves', 80, 1500, dict(waves=True)),
+        ('G-exec-over-susp', 40, 800, dict(over_susp=True)),
     ], nontrivial=lambda run: any(
         any(x['err'] and e['demand'].get(x['cid']) is not None
             and F(e['demand'][x['cid']]) <= F(run.info[x['cid']]['ram']) for x in e['results'])
